@@ -976,9 +976,16 @@ func (t *c16Table) apat(pat string, e int, both, indel bool, r c16Rec) bool {
 	if indel {
 		g = "i"
 	}
-	return t.lib("ap:"+hx([]byte(pat))+":"+strconv.Itoa(e)+f+g+":"+r.show(), func() bool {
+	k := "ap:" + hx([]byte(pat)) + ":" + strconv.Itoa(e) + f + g + ":" + r.show()
+	_, known := t.m[k]
+	v := t.lib(k, func() bool {
 		return obiapat.IsPatternMatchSequence(pat, e, both, indel)(r.bio())
 	})
+	if !known {
+		// glue pass: the verdict handed to the model is itself checked (brute force on the raw inputs, c16_apat.go)
+		c16apCheckPredicate(pat, e, both, indel, r.seq, t.m[k])
+	}
+	return v
 }
 
 // ---------------------------------------------------------------------------------------------
@@ -1626,7 +1633,7 @@ func (t *c16Table) bestMatch(pat string, e int, indel, direct bool, r c16Rec) (i
 	var st, en, nerr int
 	found := false
 	s := r.bio()
-	guardT(2*time.Second, func() string {
+	gout := guardT(2*time.Second, func() string {
 		p, err := obiapat.MakeApatPattern(pat, e, indel)
 		if err != nil {
 			return "err"
@@ -1651,6 +1658,9 @@ func (t *c16Table) bestMatch(pat string, e int, indel, direct bool, r c16Rec) (i
 		res = fmt.Sprintf("%d,%d,%d", st, en, nerr)
 	}
 	t.put(k, res)
+	if gout == "ok" {
+		c16apCheckBest(pat, e, indel, direct, r.seq, st, en, nerr, found) // glue pass: c16_apat.go
+	}
 	return st, en, nerr, found
 }
 
@@ -1958,6 +1968,12 @@ func (c16) execClass(ws []string, recs []c16Pair) (string, []Fail) {
 }
 
 func (c16) Exec(c string) (string, []Fail) {
+	c16apFails = nil
+	res, fails := c16{}.exec0(c)
+	return res, append(fails, c16apFails...) // + the failures of the oracle on the pattern verdicts (c16_apat.go)
+}
+
+func (c16) exec0(c string) (string, []Fail) {
 	if strings.HasPrefix(c, "conc ") || strings.HasPrefix(c, "race conc ") {
 		return c16ExecConc(c) // c16_conc.go
 	}
@@ -2780,4 +2796,5 @@ func (c16) Gen(rng *rand.Rand, tier string, emit func(string)) {
 	c16GenArgv(rng, tier, emit)
 	c16GenArgvx(rng, tier, emit)
 	c16GenConc(rng, tier, emit) // last: the cases above keep their PRNG draws
+	c16GenApat(rng, tier, emit, join) // glue pass (after the conc cases, which keep their draws)
 }
